@@ -13,6 +13,24 @@ from ..framework import Prop
 FLAVOURS = ['rx', 'rf', 'rc', 'on']     # return_exceptions | raise (no cancel) | raise + cancel_on_error | OnlineBoundedGather2
 
 
+def canon_value(v):
+    """canonical text of a value a task body returned: an int, None, or an exception INSTANCE handed back as a value"""
+    if v is None:
+        return 'None'
+    if isinstance(v, asyncio.CancelledError):
+        return 'EX'
+    if isinstance(v, BaseException):
+        return f'E{v.code}' if hasattr(v, 'code') else f'E{type(v).__name__}'
+    return str(v)
+
+
+def want_slot(o):
+    """what the slot of a task with scripted outcome `o` must be (outcome kinds: r value, e raises, c ends in CancelledError,
+    n returns None, v returns an exception instance, w returns a CancelledError instance)"""
+    kind, v = o[0], o[1]
+    return {'r': f'ok:{v}', 'e': f'err:{v}', 'c': 'X', 'n': 'ok:None', 'v': f'ok:E{v}', 'w': 'ok:EX'}[kind]
+
+
 class TaskError(Exception):
     def __init__(self, code):
         super().__init__(code)
@@ -97,7 +115,8 @@ class C20(Prop):
                   'bounded_gather2 / OnlineBoundedGather2 called by a permit holder and under bounded_gather(parallelism=n) — always for '
                   'return_exceptions, cancel_on_error=True and the online pool, and for cancel_on_error=False until the helper raises (open '
                   'finding F4, refuted on its witness); a '
-                  'returned list is the scripted outcomes in submission order; a helper that raised, raised the first exception in '
+                  'returned list is exactly the scripted outcomes in submission order — a body that RETURNS None or an exception instance '
+                  'fills the value position of its slot, a body that raises the exception position; a helper that raised, raised the first exception in '
                   'schedule order it gets to see (task failure, cancelled child, body exception, cancellation of the caller; '
                   'return_exceptions raises only the latter); after a normal return, after ANY raise of cancel_on_error=True or of '
                   'return_exceptions (also by cancellation) and after the online pool was left in any way (also by a cancellation inside '
@@ -118,7 +137,7 @@ class C20(Prop):
     search_budget = {'quick': 3000, 'thorough': 30000}
     rule = ('case = (helper flavour rx|rf|rc|on, entry hold = caller holds one permit of Semaphore(n) | bg = bounded_gather(parallelism=n), '
             'scripted outcome per task, schedule); each task body increments a counter, blocks on a harness gate and ends with its outcome; '
-            'op f i opens the gate of task i (outcome r value / e exception / c the body ends in CancelledError), op b ends the body of the `async with OnlineBoundedGather2` block, op x cancels the task that called the helper; after every op the loop '
+            'op f i opens the gate of task i (outcome r value / e raises / c the body ends in CancelledError / n, v, w the body RETURNS None, an exception instance, a CancelledError instance as its value), op b ends the body of the `async with OnlineBoundedGather2` block, op x cancels the task that called the helper; after every op the loop '
             'runs to quiescence and (state of every task body, sema._value, helper state/result, number of helper-created tasks unfinished '
             'at the instant the helper returned or raised, peak of the running counter during the step) is compared with the model. '
             'non-trivial = at least one task had to wait for a permit or an exception occurred; distinct by full case')
@@ -161,16 +180,16 @@ class C20(Prop):
                 return c
             c['ops'].append(['f', run[0]])
 
-    def _exhaustive(self, max_tasks, sizes, max_fail=5, flavours=FLAVOURS, cancels=True):
+    def _exhaustive(self, max_tasks, sizes, max_fail=5, flavours=FLAVOURS, cancels=True, kinds='rec'):
         seen = set()
         for fl in flavours:
             for entry in (('hold',) if fl == 'on' else ('hold', 'bg')):
                 for n in sizes:
                     for k in range(max_tasks + 1):
-                        for pat in itertools.product('rec', repeat=k):
+                        for pat in itertools.product(kinds, repeat=k):
                             if pat.count('e') + pat.count('c') > max_fail:
                                 continue
-                            outs = [[p, 0 if p == 'c' else 10 * (i + 1) + (1 if p == 'e' else 0)] for i, p in enumerate(pat)]
+                            outs = [[p, 0 if p in 'cnw' else 10 * (i + 1) + (1 if p in 'ev' else 0)] for i, p in enumerate(pat)]
                             base = {'fl': fl, 'entry': entry, 'n': n, 'outs': outs}
                             bodies = [None] if fl != 'on' else [(pos, kind, 99, first) for pos in range(k + 1) for kind in 're'
                                                                 for first in (False, True)]
@@ -192,10 +211,12 @@ class C20(Prop):
         k = rng.choice([1, 2, 3, 4, 5, 5, 6])
         pfail = rng.choice([0.0, 0.2, 0.5])
         pcanc = rng.choice([0.0, 0.0, 0.15, 0.3])
+        pobj = rng.choice([0.0, 0.15, 0.3])
         outs = []
         for i in range(k):
             r = rng.random()
-            outs.append(['e', 10 * (i + 1) + 1] if r < pfail else ['c', 0] if r < pfail + pcanc else ['r', 10 * (i + 1)])
+            outs.append(['e', 10 * (i + 1) + 1] if r < pfail else ['c', 0] if r < pfail + pcanc else
+                        rng.choice([['v', 10 * (i + 1) + 1], ['n', 0], ['w', 0]]) if r < pfail + pcanc + pobj else ['r', 10 * (i + 1)])
         prio = list(range(k))
         rng.shuffle(prio)
         body = None
@@ -217,8 +238,10 @@ class C20(Prop):
         if tier == 'thorough':
             yield from self._exhaustive(4, (1, 2, 3))
             yield from (c for c in self._exhaustive(5, (1, 2, 3), max_fail=2, flavours=['rx', 'rf', 'rc']) if len(c['outs']) == 5)
+            yield from self._exhaustive(3, (1, 2), kinds='revnw')      # bodies that RETURN None / exception instances
         else:
             yield from self._exhaustive(3, (1, 2))
+            yield from self._exhaustive(2, (1, 2), kinds='revnw', cancels=False)
         for _ in range(n):
             yield self._random_case(rng)
 
@@ -275,7 +298,7 @@ class C20(Prop):
                         if isinstance(v, type) and issubclass(v, asyncio.CancelledError):
                             own = True
                             raise asyncio.CancelledError()     # scripted outcome `c`: the body itself ends in CancelledError
-                        state[i] = f'ok:{v}'
+                        state[i] = f'ok:{canon_value(v)}'
                         return v
                     except asyncio.CancelledError:
                         if i in gated and not own:              # clean-up that lasts until the harness lets it finish
@@ -312,14 +335,16 @@ class C20(Prop):
                 return f'exc:{e.code}' if isinstance(e, TaskError) else f'exc:{type(e).__name__}'
 
             def canon_slot(x):
-                if isinstance(x, tuple) and len(x) == 2:
+                if isinstance(x, tuple) and len(x) == 2:        # return_exceptions: the pair (value, None) | (None, exception)
                     v, e = x
                     if e is None:
-                        return f'ok:{v}'
+                        return f'ok:{canon_value(v)}'
+                    if v is not None:
+                        return f'bad-pair:{canon_value(v)}/{canon_value(e)}'
                     if isinstance(e, asyncio.CancelledError):
                         return 'X'
                     return f'err:{e.code}' if isinstance(e, TaskError) else f'err:{type(e).__name__}'
-                return f'ok:{x}'
+                return f'ok:{canon_value(x)}'
 
             async def call(sema):
                 if fl == 'on':
@@ -342,7 +367,8 @@ class C20(Prop):
                                 raise
                     res = []
                     for t in pool_tasks:
-                        res.append('X' if (t.cancelled() or t.result() is None) else canon_slot(t.result()))
+                        i_ = len(res)      # a task whose body was cancelled also returns None: told apart by the body's own record
+                        res.append('X' if (t.cancelled() or (t.result() is None and not state[i_].startswith('ok:'))) else canon_slot(t.result()))
                     return res
                 if entry == 'bg':
                     r = await U.bounded_gather(*pfs, parallelism=n, return_exceptions=(fl == 'rx'), cancel_on_error=(fl == 'rc'))
@@ -400,6 +426,12 @@ class C20(Prop):
                         s.open(('t', i), value=v)
                     elif kind == 'c':
                         s.open(('t', i), value=asyncio.CancelledError)
+                    elif kind == 'n':
+                        s.open(('t', i), value=None)
+                    elif kind == 'v':
+                        s.open(('t', i), value=TaskError(v))               # an exception instance RETURNED as the value
+                    elif kind == 'w':
+                        s.open(('t', i), value=asyncio.CancelledError())   # a CancelledError instance RETURNED as the value
                     else:
                         s.open(('t', i), exc=TaskError(v))
                 elif op[0] == 'u':
@@ -506,7 +538,7 @@ class C20(Prop):
                 return f'{clause}: {at}: the helper returned {h} although exception {ferr} occurred first'
             if h.startswith('ret:'):
                 slots = [x for x in h[4:].split(';') if x != '']
-                want = ['ok:%d' % o[1] if o[0] == 'r' else 'X' if o[0] == 'c' else 'err:%d' % o[1] for o in outs]
+                want = [want_slot(o) for o in outs]
                 want += ['ok:77'] * (len(d['s']) - k)       # work the online body submitted later (op bc)
                 if slots != want:
                     return f'results_in_submission_order: {at}: returned {slots}, submitted outcomes in order are {want}'
@@ -529,6 +561,10 @@ class C20(Prop):
                 f"fails={sum(1 for o in c['outs'] if o[0] == 'e')}"]
         if any(o[0] == 'c' for o in c['outs']):
             tags.append('task-ends-in-CancelledError')
+        if any(o[0] in 'vw' for o in c['outs']):
+            tags.append('task-returns-exception-instance')
+        if any(o[0] == 'n' for o in c['outs']):
+            tags.append('task-returns-None')
         if any(o[0] == 'x' for o in c['ops']):
             tags.append('caller-cancelled')
         waited = False
@@ -603,7 +639,8 @@ class C20(Prop):
         outs = []
         for i in range(k):
             r = rng.random()
-            outs.append(['e', 10 * (i + 1) + 1] if r < 0.35 else ['c', 0] if r < 0.45 else ['r', 10 * (i + 1)])
+            outs.append(['e', 10 * (i + 1) + 1] if r < 0.35 else ['c', 0] if r < 0.45 else
+                        rng.choice([['v', 10 * (i + 1) + 1], ['n', 0], ['w', 0]]) if r < 0.55 else ['r', 10 * (i + 1)])
         gated = sorted(rng.sample(range(k), rng.randint(1, k)))
         ops = [['f', i] for i in range(k)] + [['u', i] for i in gated]
         if fl == 'on':
